@@ -30,6 +30,8 @@ def render(data: bytes, fmt: str) -> bytes:
 
 def read(stream: bytes, fmt: str):
     """Decode what a reader of format fmt must obtain from the byte stream; None when it is not a valid text."""
+    if not isinstance(stream, (bytes, bytearray)):
+        return None
     if fmt == "raw":
         return bytes(stream)
     try:
